@@ -104,6 +104,31 @@ def r15_initially_stale(c, facts, rule='C15.R15'):
     c.floor(R, 'constructions of GlobalState', n, 1)
 
 
+def r17_eval_unconditional(c, facts, rule='C15.R17'):
+    """evaluating a folder is not conditional on what the server remembers of earlier evaluations: Folder::eval resets the
+    folder's module set and specification on every path (and then loads and evaluates). An early return that keeps the
+    old results when "nothing of this folder changed" answers from a state a fresh server would not have - the change
+    list is consumed by the first folder asked, a shared module changes every folder that imports it."""
+    R = c.rule(rule, 'EVAL-UNCONDITIONAL: Folder::eval drops the previous module set and specification on every path - no early return keeps old results')
+    fn = facts.normalised(c.anchor(R, 'oal_client::lsp::Folder::eval'))
+    resets = set()
+    for b, blk in fn.blocks():
+        for st in blk['stmts']:
+            if st['s'] == 'assign' and st['place']['proj']:
+                fp = MF.field_path(st['place'])
+                if fp and fp[-1] in ('mods', 'spec') and any((pr.get('owner') or '').endswith('lsp::Folder') for pr in st['place']['proj'] if pr['p'] == 'field'):
+                    resets.add(b)
+    rets = [b for b, blk in fn.blocks() if blk['term']['t'] == 'return']
+    if not resets:
+        c.bad(R, 'eval:no-reset', 'Folder::eval no longer resets the folder\'s module set / specification')
+        return
+    free = fn.reachable_from(0, avoid=resets)
+    if any(r in free for r in rets):
+        c.bad(R, 'eval:returns-without-reset', 'Folder::eval can return without having dropped the previous results: requests are answered from an evaluation of older texts (a folder that shares a module with another one never sees its change)')
+    else:
+        c.ok(R, {'Folder::eval': 'every path resets mods / spec before anything else', 'reset sites': len(resets)})
+
+
 def r2_refresh_first(c, facts):
     R = c.rule('C15.R2', 'REFRESH-FIRST: refresh() before every request; refresh re-evaluates everything on the stale path only')
     ml = c.anchor(R, 'oal_lsp::main_loop')
@@ -599,6 +624,8 @@ def r6_doc_sync(c, facts):
 
 
 def run(c, facts):
+    import c17 as _c17q
+    c.run(lambda c: _c17q.r8_cursor_on_identifier(c, facts, rule='C15.R16'))     # a request resolves the cursor among identifiers: nodes without a span (an empty qualifier) are never unwrapped
     import c11 as _c11
     import c16 as _c16
     c.run(lambda c: _c16.r10_monotone_column(c, facts, rule='C15.R10'))
@@ -613,6 +640,7 @@ def run(c, facts):
     R14 = c.rule('C15.R14', 'ORDER-FREE: which module is compiled first, and so whose error is published, does not depend on the iteration order of a hashed collection - two servers given the same texts publish the same diagnostics (shared with C06.R1)')
     c.shared(R14, lambda c, facts: _c06.r1_order_leak(c, facts, _C.pipeline(facts)[0]), 'C06.R1', facts)
     c.run(r15_initially_stale, facts)
+    c.run(r17_eval_unconditional, facts)
     c.run(r6_doc_sync, facts)
     c.run(r1_set_stale, facts)
     c.run(r2_refresh_first, facts)
